@@ -39,7 +39,7 @@ func main() {
 	humanize.Enabled = true
 	color.Enabled = false
 	logger.DeferLogs() // "Missing expression" etc. from the loader are not wanted on stderr
-	vh.Main(vh.Commands{"replay": c10Replay, "law": c10Law, "eval": c10Eval})
+	vh.Main(vh.Commands{"replay": c10Replay, "law": c10Law, "eval": c10Eval, "probechild": c10ProbeChild})
 }
 
 type M = vh.M
@@ -226,6 +226,8 @@ type recT struct {
 	Rt      bool    `json:"rt"`     // the model reads the text back to the tree (else the vector is unusable)
 	Maxrun  int     `json:"maxrun"` // file: the longest run of backslashes a physical line ends in
 	Sty     M       `json:"sty"`
+	Bad     bool    `json:"bad"`   // file: some definitions do not compile; Loaded = the definitions the specified loader delivers
+	Nfail   int     `json:"nfail"` // file: definitions that do not compile
 }
 
 func str(a []int) string { return string(vh.FromInts(a)) }
@@ -418,11 +420,25 @@ func c10Replay(argv []string) error {
 	cli := fs.String("cli", "", "rare binary")
 	clin := fs.Int("clin", 150, "CLI sample size")
 	nfiles := fs.Int("files", 1000000, "use at most this many layout files")
+	probeRounds := fs.Int("proberounds", 300, "rounds per goroutine in the concurrent phase of a probe scenario")
 	fs.Parse(argv)
 	startWatchdog(60 * time.Second)
 
 	var recs []*recT
+	var probes []*probeRec
 	if err := vh.ReadNd(*in, func(raw json.RawMessage) error {
+		var k struct {
+			Kind string `json:"kind"`
+		}
+		json.Unmarshal(raw, &k)
+		if k.Kind == "probe" {
+			pr := &probeRec{}
+			if err := json.Unmarshal(raw, pr); err != nil {
+				return err
+			}
+			probes = append(probes, pr)
+			return nil
+		}
 		r := &recT{}
 		if err := json.Unmarshal(raw, r); err != nil {
 			return err
@@ -446,6 +462,12 @@ func c10Replay(argv []string) error {
 			vecs = append(vecs, r)
 		}
 	}
+	if len(recs) == 0 && len(probes) > 0 { // debugging: the probe scenarios alone
+		st := &replayState{perGroup: map[string]int{}, perFunc: map[string]int{}, distinct: map[string]bool{}}
+		ps := replayProbe(probes, *dir, *probeRounds, st)
+		vh.WriteJSON(*out, M{"probe": fmt.Sprintf("%+v", ps), "mismatches": st.mismatches, "n_mismatches": st.nmis})
+		return nil
+	}
 	if defs == nil || len(vecs) == 0 {
 		return fmt.Errorf("no definitions / vectors in %s", *in)
 	}
@@ -462,7 +484,7 @@ func c10Replay(argv []string) error {
 		return err
 	}
 	canon := loadEnv("canon", canonPath)
-	checkLoad := func(e *env, want []defT, what string) {
+	checkLoad := func(e *env, want []defT, what string, errOK bool) {
 		var names []string
 		seen := map[string]bool{}
 		for _, d := range want {
@@ -472,16 +494,17 @@ func c10Replay(argv []string) error {
 			}
 		}
 		sort.Strings(names)
-		if e.panicMsg != "" || e.loadErr != "" || strings.Join(names, ",") != strings.Join(e.names, ",") {
+		if e.panicMsg != "" || (e.loadErr != "" && !errOK) || strings.Join(names, ",") != strings.Join(e.names, ",") {
 			b, _ := os.ReadFile(e.path)
 			st.mismatch(M{"g": "load", "f": what, "class": "names", "file": string(b), "env": e.name, "got_names": e.names, "want_names": names,
 				"load_error": e.loadErr, "panic": e.panicMsg})
 		}
 	}
-	checkLoad(canon, defs.Defs, "canon")
+	checkLoad(canon, defs.Defs, "canon", false)
 
 	var doc *env
-	var layouts []*env
+	var layouts, badFiles []*env
+	nFailing := 0
 	genNotOk, maxRun, runGe2 := 0, 0, 0
 	for _, f := range files {
 		if !f.Ok {
@@ -500,10 +523,17 @@ func c10Replay(argv []string) error {
 		}
 		if f.Doc {
 			doc = loadEnv("doc", p)
-			checkLoad(doc, f.Loaded, "doc")
-		} else if len(layouts) < *nfiles {
+			checkLoad(doc, f.Loaded, "doc", false)
+		} else if f.Bad {
+			// some definitions of this file do not compile: the others must be delivered all the same (an error may be reported)
+			e := loadEnv(fmt.Sprintf("badfile-%d", f.Id), p)
+			checkLoad(e, f.Loaded, "file-with-failing-definitions", true)
+			layouts = append(layouts, e)
+			badFiles = append(badFiles, e)
+			nFailing += f.Nfail
+		} else if len(layouts) < *nfiles+len(badFiles) {
 			e := loadEnv(fmt.Sprintf("layout-%d", f.Id), p)
-			checkLoad(e, f.Loaded, "layout")
+			checkLoad(e, f.Loaded, "layout", false)
 			layouts = append(layouts, e)
 		}
 	}
@@ -644,7 +674,10 @@ func c10Replay(argv []string) error {
 	cliRuns := 0
 	if *cli != "" {
 		cliRuns = replayCLI(*cli, canonPath, vecs, *clin, st)
+		cliRuns += replayCLIBad(*cli, badFiles, vecs, st)
 	}
+	// ---- the optimiser's probe is an evaluation: scenarios of ExprProbe_Gen, each in two fresh processes
+	ps := replayProbe(probes, *dir, *probeRounds, st)
 
 	sort.Slice(st.mismatches, func(i, j int) bool {
 		return fmt.Sprint(st.mismatches[i]["g"], st.mismatches[i]["f"], st.mismatches[i]["class"]) < fmt.Sprint(st.mismatches[j]["g"], st.mismatches[j]["f"], st.mismatches[j]["class"])
@@ -652,14 +685,84 @@ func c10Replay(argv []string) error {
 	vh.WriteJSON(*out, M{"vectors": len(vecs), "runs": st.runs, "decided": st.decided, "distinct_nontrivial": len(st.distinct),
 		"layout_files": len(layouts), "layout_runs": layoutRuns, "clock_runs": clockRuns, "clock_expressions": len(keep), "cli_runs": cliRuns,
 		"gen_not_ok": genNotOk + notRead, "rel_comparisons": st.relRuns, "max_backslash_run": maxRun, "files_with_run_ge2": runGe2, "per_group": st.perGroup, "per_func": st.perFunc, "mismatches": st.mismatches, "n_mismatches": st.nmis,
-		"samples": st.samples})
+		"samples": st.samples, "bad_files": len(badFiles), "failing_definitions": nFailing,
+		"probe": M{"scenarios": ps.scenarios, "processes": ps.processes, "evaluations": ps.evals, "decided": ps.decided, "skipped": ps.skipped,
+			"runaway_scenarios": ps.infScn, "both_crash": ps.bothCrash, "harness_failures": ps.harness}})
 	return nil
+}
+
+// replayCLIBad: `rare --funcs <file with failing definitions> expression <call>` (and the same file through RARE_FUNC_FILES)
+// must answer what the specification says the call is worth - the failing definitions are as if they were not written
+func replayCLIBad(bin string, bad []*env, vecs []*recT, st *replayState) int {
+	type job struct {
+		e  *env
+		r  *recT
+		ci int
+		ev bool
+	}
+	var jobs []job
+	var pool []*recT
+	for _, r := range vecs {
+		if r.Rt && r.Udf && r.Abs && !r.Clock && r.G == "d1" && len(r.Sub) > 0 {
+			pool = append(pool, r)
+		}
+	}
+	if len(pool) == 0 {
+		return 0
+	}
+	for bi, e := range bad {
+		if bi >= 12 {
+			break
+		}
+		for k := 0; k < 3; k++ {
+			r := pool[(bi*7+k*len(pool)/3)%len(pool)]
+			for ci := range r.Cases {
+				c := (ci + bi) % len(r.Cases)
+				m, ks := r.Cases[c].ctx()
+				if cliUsable(str(r.Tpl), m, ks) && len(m) > 0 && r.Cases[c].E.K == "out" {
+					jobs = append(jobs, job{e, r, c, k == 2})
+					break
+				}
+			}
+		}
+	}
+	var wg sync.WaitGroup
+	sem := make(chan bool, 6)
+	for _, j := range jobs {
+		wg.Add(1)
+		sem <- true
+		go func(j job) {
+			defer wg.Done()
+			defer func() { <-sem }()
+			cs := &j.r.Cases[j.ci]
+			m, ks := cs.ctx()
+			tpl := str(j.r.Tpl)
+			for _, noopt := range []bool{false, true} {
+				got, err := runCLIx(bin, j.e.path, j.ev, noopt, m, ks, tpl)
+				if err != nil || got != str(cs.E.V)+"\n" && got != str(cs.E.V) {
+					b, _ := os.ReadFile(j.e.path)
+					st.mismatch(M{"g": "cli", "f": j.r.F, "class": "file-with-failing-definitions", "template": tpl, "m": m, "ks": ks, "got": got, "opt": !noopt,
+						"err": fmt.Sprint(err), "expect_kind": cs.E.K, "expect": symText(cs.E.V), "env": j.e.name, "via_environment": j.ev, "file": string(b)})
+				}
+			}
+		}(j)
+	}
+	wg.Wait()
+	return 2 * len(jobs)
 }
 
 // runCLI: rare [--funcs f] expression [--no-optimize] -d .. -k .. -- template
 func runCLI(bin, funcs string, noopt bool, m []string, ks [][2]string, tpl string) (string, error) {
+	return runCLIx(bin, funcs, false, noopt, m, ks, tpl)
+}
+
+// viaEnv: the funcs file is named by RARE_FUNC_FILES instead of --funcs
+func runCLIx(bin, funcs string, viaEnv bool, noopt bool, m []string, ks [][2]string, tpl string) (string, error) {
 	args := []string{}
-	if funcs != "" {
+	envFuncs := ""
+	if funcs != "" && viaEnv {
+		envFuncs = funcs
+	} else if funcs != "" {
 		args = append(args, "--funcs", funcs)
 	}
 	args = append(args, "expression", "-n", "-r")
@@ -674,7 +777,7 @@ func runCLI(bin, funcs string, noopt bool, m []string, ks [][2]string, tpl strin
 	}
 	args = append(args, tpl)
 	cmd := exec.Command(bin, args...)
-	cmd.Env = append(os.Environ(), "RARE_FUNC_FILES=")
+	cmd.Env = append(os.Environ(), "RARE_FUNC_FILES="+envFuncs)
 	var so, se strings.Builder
 	cmd.Stdout, cmd.Stderr = &so, &se
 	done := make(chan error, 1)
